@@ -45,4 +45,6 @@ EOT
   printf '}}'
 } > "$TMP/overlay.json"
 cd "$REPO"
-VERIF_REPLAY="$REPLAY" timeout 300 go test -tags verif -vet=off -count=1 -overlay "$TMP/overlay.json" -run 'TestVerifNative$' "./$REL" 2>&1
+mkdir -p "$TMP/scratch"
+# scratch directories of the harness (nd.ScratchDir) go below $TMP and disappear with it; GOTMPDIR keeps the build where it was
+GOTMPDIR="${GOTMPDIR:-/tmp}" TMPDIR="$TMP/scratch" VERIF_REPLAY="$REPLAY" timeout 300 go test -tags verif -vet=off -count=1 -overlay "$TMP/overlay.json" -run 'TestVerifNative$' "./$REL" 2>&1
